@@ -5,6 +5,7 @@ mod ent;
 mod replay;
 mod scen;
 mod sim;
+mod winst;
 
 use serde_json::{Value, json};
 
@@ -45,6 +46,16 @@ fn main() {
                 "Entities" => {
                     let cfgc = cfg.clone();
                     let make = || ent::EntModel::new(&cfgc);
+                    if args[1] == "replay" {
+                        replay::replay_graph(&arg(&args, "--edges").expect("--edges"), &make, maxdiv).json
+                    } else {
+                        let ops: Value = serde_json::from_str(&std::fs::read_to_string(arg(&args, "--ops").expect("--ops")).unwrap()).unwrap();
+                        replay::replay_ops(ops.as_array().unwrap(), &make)
+                    }
+                }
+                "WriterInst" => {
+                    let cfgc = cfg.clone();
+                    let make = || winst::WInstModel::new(&cfgc);
                     if args[1] == "replay" {
                         replay::replay_graph(&arg(&args, "--edges").expect("--edges"), &make, maxdiv).json
                     } else {
